@@ -83,7 +83,7 @@ End ProtoShape.
 (* ---------------- packaged results for [compete] on an arbitrary start table ---------------- *)
 
 Section Packaged.
-  Variables (zero top : Z) (n : nat) (w : nat -> nat -> Z) (semi : bool) (nd0 : @nodes Z).
+  Variables (zero top : Z) (n : nat) (w : nat -> nat -> Z) (semi : bool) (nl : nat) (nd0 : @nodes Z).
   Hypothesis Hzt : (zero < top)%Z.
   Hypothesis Hw : forall p q, p < n -> q < n -> p <> q -> (zero <= w p q < top)%Z.
   Hypothesis Hl_cost : length (n_cost nd0) = n.
@@ -93,7 +93,7 @@ Section Packaged.
   Hypothesis Hord0 : n_order nd0 = [].
   Hypothesis Hproto : exists s, s < n /\ nth s (n_status nd0) false = true.
 
-  Let nd := compete Z.ltb zero top semi n w nd0.
+  Let nd := compete Z.ltb zero top semi nl n w nd0.
   Let cost q := nth q (n_cost nd) zero.
   Let pred q := nth q (n_pred nd) None.
   Let plabel q := nth q (n_plabel nd) 0.
@@ -103,7 +103,7 @@ Section Packaged.
     Permutation (n_order nd) (seq 0 n) /\
     (forall i j, i < j -> j < n -> (cost (nth i (n_order nd) 0%nat) <= cost (nth j (n_order nd) 0%nat))%Z).
   Proof.
-    exact (fit_order zero top n w semi _ _ Hzt Hw Hproto nd0 eq_refl eq_refl
+    exact (fit_order zero top n w semi nl _ _ Hzt Hw Hproto nd0 eq_refl eq_refl
              Hl_cost Hl_pred Hl_label Hl_plabel Hord0).
   Qed.
 
@@ -117,10 +117,10 @@ Section Packaged.
        exists r k, r < n /\ isproto r /\ reaches pred q r k /\ pred r = None /\ k < n /\
          plabel q = nth r (n_label nd0) 0).
   Proof.
-    pose proof (fit_forest zero top n w semi _ _ Hzt Hw Hproto nd0 eq_refl eq_refl
+    pose proof (fit_forest zero top n w semi nl _ _ Hzt Hw Hproto nd0 eq_refl eq_refl
              Hl_cost Hl_pred Hl_label Hl_plabel Hord0) as [A B].
     split; [exact A|]. split; [exact B|]. intros q Hq.
-    destruct (fit_roots zero top n w semi _ _ Hzt Hw Hproto nd0 eq_refl eq_refl
+    destruct (fit_roots zero top n w semi nl _ _ Hzt Hw Hproto nd0 eq_refl eq_refl
              Hl_cost Hl_pred Hl_label Hl_plabel Hord0 q Hq)
       as (r & k & pi & R1 & R2 & R3 & R4 & R5 & R6 & _).
     exists r, k. repeat split; assumption.
@@ -133,10 +133,10 @@ Section Packaged.
        pathmax w zero pi = cost q).
   Proof.
     split.
-    - exact (fit_lower_bound zero top n w semi _ _ Hzt Hw Hproto nd0 eq_refl eq_refl
+    - exact (fit_lower_bound zero top n w semi nl _ _ Hzt Hw Hproto nd0 eq_refl eq_refl
              Hl_cost Hl_pred Hl_label Hl_plabel Hord0).
     - intros q Hq.
-      destruct (fit_roots zero top n w semi _ _ Hzt Hw Hproto nd0 eq_refl eq_refl
+      destruct (fit_roots zero top n w semi nl _ _ Hzt Hw Hproto nd0 eq_refl eq_refl
              Hl_cost Hl_pred Hl_label Hl_plabel Hord0 q Hq)
         as (r & k & pi & R1 & R2 & R3 & R4 & R5 & R6 & R7 & R8).
       exists r, pi. repeat split; try assumption; apply R7.
@@ -145,18 +145,17 @@ Section Packaged.
   Theorem compete_status_label :
     n_status nd = n_status nd0 /\
     (semi = false -> n_label nd = n_label nd0) /\
-    (semi = true -> forall q, q < n ->
-       nth q (n_label nd) 0 = plabel q /\
-       (isproto q -> nth q (n_label nd) 0 = nth q (n_label nd0) 0)).
+    (forall q, q < n -> q < nl -> nth q (n_label nd) 0 = nth q (n_label nd0) 0) /\
+    (semi = true -> forall q, q < n -> nl <= q -> nth q (n_label nd) 0 = plabel q).
   Proof.
-    destruct (fit_status_label zero top n w semi _ _ Hzt Hw Hproto nd0 eq_refl eq_refl
-             Hl_cost Hl_pred Hl_label Hl_plabel Hord0) as (A & B & C).
-    split; [exact A|]. split; [exact B|]. intros Hs q Hq. specialize (C Hs q Hq).
+    destruct (fit_status_label zero top n w semi nl _ _ Hzt Hw Hproto nd0 eq_refl eq_refl
+             Hl_cost Hl_pred Hl_label Hl_plabel Hord0) as (A & B & C0 & C).
+    split; [exact A|]. split; [exact B|]. split; [exact C0|].
+    intros Hs q Hq Hlq. specialize (C Hs q Hq Hlq).
     pose proof (proj1 compete_forest) as FP.
     unfold nd, cost, pred, plabel, isproto in *. destruct (nth q (n_status nd0) false) eqn:E.
-    - destruct (FP q Hq E) as (_ & _ & F). split; [|intros _; exact C].
-      rewrite C. symmetry. exact F.
-    - split; [exact C|discriminate].
+    - destruct (FP q Hq E) as (_ & _ & F). rewrite C. symmetry. exact F.
+    - exact C.
   Qed.
 End Packaged.
 
@@ -199,11 +198,11 @@ Proof.
   destruct (find_prototypes_shaped Z.ltb top zero labels w) as (A & B & C & D & E & F).
   fold n fp in A, B, C, D, E, F.
   assert (Hll : length (n_label fp) = n) by (rewrite C; reflexivity).
-  assert (Hnd : nd = compete Z.ltb zero top false n w fp) by reflexivity.
-  pose proof (compete_order zero top n w false fp Hzt Hw A B Hll D F Hproto) as (O1 & O2).
-  pose proof (compete_forest zero top n w false fp Hzt Hw A B Hll D F Hproto) as (F1 & F2 & F3).
-  pose proof (compete_optimal zero top n w false fp Hzt Hw A B Hll D F Hproto) as (P1 & P2).
-  pose proof (compete_status_label zero top n w false fp Hzt Hw A B Hll D F Hproto) as (S1 & S2 & _).
+  assert (Hnd : nd = compete Z.ltb zero top false n n w fp) by reflexivity.
+  pose proof (compete_order zero top n w false n fp Hzt Hw A B Hll D F Hproto) as (O1 & O2).
+  pose proof (compete_forest zero top n w false n fp Hzt Hw A B Hll D F Hproto) as (F1 & F2 & F3).
+  pose proof (compete_optimal zero top n w false n fp Hzt Hw A B Hll D F Hproto) as (P1 & P2).
+  pose proof (compete_status_label zero top n w false n fp Hzt Hw A B Hll D F Hproto) as (S1 & S2 & _).
   rewrite C in F1, F3, S2. rewrite <- Hnd in *.
   split; [exact O1|]. split; [exact O2|]. split; [exact F1|]. split; [exact F2|].
   split; [exact F3|]. split; [exact P1|]. split; [exact P2|]. split; [exact S1|].
@@ -213,14 +212,14 @@ Qed.
 (* ---------------- single-statement forms used by Props/C01.v and Props/C15.v ---------------- *)
 
 Lemma compete_false_opf :
-  forall (zero top : Z) (n : nat) (w : nat -> nat -> Z) (nd0 : @nodes Z),
+  forall (zero top : Z) (nl n : nat) (w : nat -> nat -> Z) (nd0 : @nodes Z),
     let isproto q := nth q (n_status nd0) false = true in
     (zero < top)%Z ->
     (forall p q, p < n -> q < n -> p <> q -> (zero <= w p q < top)%Z) ->
     length (n_cost nd0) = n -> length (n_pred nd0) = n -> length (n_label nd0) = n ->
     length (n_plabel nd0) = n -> n_order nd0 = [] ->
     (exists s, s < n /\ isproto s) ->
-    let nd := compete Z.ltb zero top false n w nd0 in
+    let nd := compete Z.ltb zero top false nl n w nd0 in
     let cost q := nth q (n_cost nd) zero in
     let pred q := nth q (n_pred nd) None in
     let plabel q := nth q (n_plabel nd) 0 in
@@ -241,11 +240,11 @@ Lemma compete_false_opf :
        pathmax w zero pi = cost q) /\
     n_status nd = n_status nd0 /\ n_label nd = n_label nd0.
 Proof.
-  intros zero top n w nd0 isproto Hzt Hw L1 L2 L3 L4 L5 Hproto nd cost pred plabel.
-  pose proof (compete_order zero top n w false nd0 Hzt Hw L1 L2 L3 L4 L5 Hproto) as (O1 & O2).
-  pose proof (compete_forest zero top n w false nd0 Hzt Hw L1 L2 L3 L4 L5 Hproto) as (F1 & F2 & F3).
-  pose proof (compete_optimal zero top n w false nd0 Hzt Hw L1 L2 L3 L4 L5 Hproto) as (P1 & P2).
-  pose proof (compete_status_label zero top n w false nd0 Hzt Hw L1 L2 L3 L4 L5 Hproto)
+  intros zero top nl n w nd0 isproto Hzt Hw L1 L2 L3 L4 L5 Hproto nd cost pred plabel.
+  pose proof (compete_order zero top n w false nl nd0 Hzt Hw L1 L2 L3 L4 L5 Hproto) as (O1 & O2).
+  pose proof (compete_forest zero top n w false nl nd0 Hzt Hw L1 L2 L3 L4 L5 Hproto) as (F1 & F2 & F3).
+  pose proof (compete_optimal zero top n w false nl nd0 Hzt Hw L1 L2 L3 L4 L5 Hproto) as (P1 & P2).
+  pose proof (compete_status_label zero top n w false nl nd0 Hzt Hw L1 L2 L3 L4 L5 Hproto)
     as (S1 & S2 & _).
   split; [exact O1|]. split; [exact O2|]. split; [exact F1|]. split; [exact F2|].
   split; [exact F3|]. split; [exact P1|]. split; [exact P2|]. split; [exact S1|].
@@ -253,14 +252,14 @@ Proof.
 Qed.
 
 Lemma compete_true_opf :
-  forall (zero top : Z) (n : nat) (w : nat -> nat -> Z) (nd0 : @nodes Z),
+  forall (zero top : Z) (nl n : nat) (w : nat -> nat -> Z) (nd0 : @nodes Z),
     let isproto q := nth q (n_status nd0) false = true in
     (zero < top)%Z ->
     (forall p q, p < n -> q < n -> p <> q -> (zero <= w p q < top)%Z) ->
     length (n_cost nd0) = n -> length (n_pred nd0) = n -> length (n_label nd0) = n ->
     length (n_plabel nd0) = n -> n_order nd0 = [] ->
     (exists s, s < n /\ isproto s) ->
-    let nd := compete Z.ltb zero top true n w nd0 in
+    let nd := compete Z.ltb zero top true nl n w nd0 in
     let cost q := nth q (n_cost nd) zero in
     let pred q := nth q (n_pred nd) None in
     let plabel q := nth q (n_plabel nd) 0 in
@@ -276,24 +275,29 @@ Lemma compete_true_opf :
          plabel q = plabel p /\ before (n_order nd) p q) /\
     (forall q, q < n ->
        exists r k, r < n /\ isproto r /\ reaches pred q r k /\ pred r = None /\ k < n /\
-         plabel q = nth r (n_label nd0) 0 /\ label q = nth r (n_label nd0) 0) /\
+         plabel q = nth r (n_label nd0) 0 /\ (nl <= q -> label q = nth r (n_label nd0) 0)) /\
     (forall q s pi, q < n -> s < n -> isproto s -> path_from_to n s q pi ->
        (cost q <= pathmax w zero pi)%Z) /\
     (forall q, q < n -> exists s pi, s < n /\ isproto s /\ path_from_to n s q pi /\
        pathmax w zero pi = cost q) /\
+    (forall q, q < n -> q < nl -> label q = nth q (n_label nd0) 0) /\
     n_status nd = n_status nd0.
 Proof.
-  intros zero top n w nd0 isproto Hzt Hw L1 L2 L3 L4 L5 Hproto nd cost pred plabel label.
-  pose proof (compete_order zero top n w true nd0 Hzt Hw L1 L2 L3 L4 L5 Hproto) as (O1 & O2).
-  pose proof (compete_forest zero top n w true nd0 Hzt Hw L1 L2 L3 L4 L5 Hproto) as (F1 & F2 & F3).
-  pose proof (compete_optimal zero top n w true nd0 Hzt Hw L1 L2 L3 L4 L5 Hproto) as (P1 & P2).
-  pose proof (compete_status_label zero top n w true nd0 Hzt Hw L1 L2 L3 L4 L5 Hproto)
-    as (S1 & _ & S3).
+  intros zero top nl n w nd0 isproto Hzt Hw L1 L2 L3 L4 L5 Hproto nd cost pred plabel label.
+  pose proof (compete_order zero top n w true nl nd0 Hzt Hw L1 L2 L3 L4 L5 Hproto) as (O1 & O2).
+  pose proof (compete_forest zero top n w true nl nd0 Hzt Hw L1 L2 L3 L4 L5 Hproto) as (F1 & F2 & F3).
+  pose proof (compete_optimal zero top n w true nl nd0 Hzt Hw L1 L2 L3 L4 L5 Hproto) as (P1 & P2).
+  pose proof (compete_status_label zero top n w true nl nd0 Hzt Hw L1 L2 L3 L4 L5 Hproto)
+    as (S1 & _ & S2 & S3).
   specialize (S3 eq_refl).
-  split; [exact O1|]. split; [exact O2|]. split; [|split; [exact F2|split; [|split; [exact P1|split; [exact P2|exact S1]]]]].
+  split; [exact O1|]. split; [exact O2|].
+  split; [|split; [exact F2|split; [|split; [exact P1|split; [exact P2|split; [exact S2|exact S1]]]]]].
   - intros q Hq Hpr. destruct (F1 q Hq Hpr) as (X1 & X2 & X3).
-    split; [exact X1|]. split; [exact X2|]. split; [exact X3|]. apply (S3 q Hq); exact Hpr.
+    split; [exact X1|]. split; [exact X2|]. split; [exact X3|].
+    destruct (Nat.lt_ge_cases q nl) as [Hlq|Hlq]; [apply S2; assumption|].
+    unfold label, nd. rewrite (S3 q Hq Hlq). exact X3.
   - intros q Hq. destruct (F3 q Hq) as (r & k & R1 & R2 & R3 & R4 & R5 & R6).
     exists r, k. split; [exact R1|]. split; [exact R2|]. split; [exact R3|]. split; [exact R4|].
-    split; [exact R5|]. split; [exact R6|]. unfold label, nd. rewrite (proj1 (S3 q Hq)). exact R6.
+    split; [exact R5|]. split; [exact R6|]. intros Hlq. unfold label, nd.
+    rewrite (S3 q Hq Hlq). exact R6.
 Qed.
